@@ -109,6 +109,7 @@ def run(tier, seed):
                 reqs.append('render %d %d %s' % (k, int(rng.random() < 0.5), tb(d)))
                 meta.append(('render', did, d, k, False))
         replies = lean_batch(reqs)
+        opt_calls = []
         filereqs, filemeta = [], []
         for m, r in zip(meta, replies):
             if m is None:
@@ -117,6 +118,8 @@ def run(tier, seed):
                 _, did, d = m
                 name, hdr, sf = drawers[did]
                 real = dp.parse_dump_data(memoryview(d), hdr, sf)
+                if len(opt_calls) < (60 if thorough else 25) and len(d) < 5000 and rng.random() < 0.3:
+                    opt_calls.append(('dump', d, [hdr, sf], real))
                 ilog, traces = regions_by_statement(d)
                 ck.case(key=d if traces else None, sample={'drawer': name, 'len': len(d), 'headers': len(traces)})
                 ck.count('headers=%d' % min(len(traces), 3))
@@ -176,6 +179,7 @@ def run(tier, seed):
                 continue
             if r.lines() != real_file:
                 ck.disagree('parse_dump_file differs from model', rp)
+        iod.check_optimised(ck, opt_calls, 'dump samples')
         # ---- table files that are rewritten between two decodes in one process (same path, other content): every region is decoded with the
         # tables that are in the files NOW, exactly as the stand-alone decoders would
         import re as _re
